@@ -114,7 +114,7 @@ def _vrandrange(*args):
         return _REAL_RANDRANGE(*args)
     lo, hi = (0, args[0]) if len(args) == 1 else args
     want = drv._force_pick
-    if want is not None and str(want).isdigit() and lo <= int(want) < hi:
+    if want is not None and str(want).isascii() and str(want).isdigit() and lo <= int(want) < hi:
         return int(want)
     n = drv._rr_calls = getattr(drv, "_rr_calls", 0) + 1
     r = _real_random_mod.random()
@@ -276,7 +276,7 @@ class Tokens(object):
             # a string the server made up: generated mailbox id, first seen
             self.gen += 1
             t = "g%d" % self.gen
-        elif kind == "name" and conc.isdigit() and str(int(conc)) == conc and int(conc) > 0:
+        elif kind == "name" and conc.isascii() and conc.isdigit() and str(int(conc)) == conc and int(conc) > 0:
             t = conc
         else:
             t = "?%s:%s" % (kind, conc)
